@@ -113,6 +113,7 @@ class Recorder:
         old = signal.signal(signal.SIGALRM, _alarm)
         signal.setitimer(signal.ITIMER_REAL, self.timeout_s, 1.0)
         out = "ret"
+        pending_extra = None
         try:
             try:
                 WATCH["armed"] = True
@@ -127,8 +128,11 @@ class Recorder:
                 TIMEOUTS["seen"] += 1
         except Exception as exc:  # noqa: BLE001 - every exception is an observation
             out, result = "raise", exc
+            pending_extra = getattr(exc, "verif_fields", None)       # observations an action made before the library raised
         ms = (time.perf_counter() - t0) * 1000.0
         extra = {}
+        if out == "raise" and pending_extra:
+            extra = dict(pending_extra)
         if isinstance(result, Extra):
             extra, result = result.fields, result.value
         if out == "ret":
